@@ -20,9 +20,6 @@ structure Life (s : St) : Prop where
   ni : s.info = false → s.allocator = false ∧ s.verifier = false ∧ s.loaded = false ∧ s.completed = false ∧ s.bf = none
   ver : s.verifier = true → s.loaded = true
 
-/-- `s` is neither stopped nor stopping. -/
-def Running (s : St) : Prop := s.errC = true ∧ s.stopAnn = false
-
 theorem Life.running_of_peer {s : St} (h : Life s) {k : Nat} (hk : (s.findPeer k).isSome = true) : Running s := by
   unfold Running
   cases he : s.errC <;> cases hs : s.stopAnn <;> simp
@@ -144,69 +141,10 @@ theorem Life.congr {s s' : St} (h : Life s) (f : LFrame s s') : Life s' :=
 theorem Life.congrR {s s' : St} (h : Life s) (hr : Running s) (f : RFrame s s') : Life s' :=
   h.of_running_frame hr f.h1 f.h2 f.h3 f.h4 f.h5 f.h6 f.h7 f.h8 f.h9 f.h10 f.h11
 
-theorem Running.congr {s s' : St} (hr : Running s) (h1 : s'.errC = s.errC) (h2 : s'.stopAnn = s.stopAnn) :
-    Running s' := ⟨h1 ▸ hr.1, h2 ▸ hr.2⟩
-
 /-- Proves an `LFrame`/`RFrame` by the frame simp lemmas. -/
 macro "lframe" : tactic => `(tactic| (constructor <;> first | rfl | (simp; done)))
 
 /-! ### what `stop` leaves behind -/
-
-theorem closePeer_peers_eq (s : St) (k : Nat) : (s.closePeer k).peers = s.peers.filter (fun q => !decide (q.k = k)) := by
-  unfold St.closePeer
-  split
-  · next h =>
-    unfold St.findPeer at h
-    exact (find?_none_filter _ _ h).symm
-  · dsimp only
-    split <;> simp
-
-theorem foldl_closePeer_peers (l : List Peer) (t : St) :
-    (l.foldl (fun s p => s.closePeer p.k) t).peers = t.peers.filter (fun q => l.all fun p => !decide (q.k = p.k)) := by
-  induction l generalizing t with
-  | nil =>
-    simp only [List.foldl_nil, List.all_nil]
-    exact (List.filter_eq_self.2 (fun _ _ => rfl)).symm
-  | cons a l ih =>
-    simp only [List.foldl_cons, ih, closePeer_peers_eq, List.filter_filter, List.all_cons]
-    congr 1
-    funext q
-    rw [Bool.and_comm]
-
-theorem stopPeers_peers (s : St) : (stopPeers s).peers = [] := by
-  unfold stopPeers
-  rw [foldl_closePeer_peers, List.filter_eq_nil_iff]
-  intro q hq
-  simp only [List.all_eq_true, Bool.not_eq_eq_eq_not, Bool.not_true, decide_eq_false_iff_not]
-  intro hall
-  exact hall q hq rfl
-
-theorem stopAlloc_allocator (s : St) : (stopAlloc s).allocator = false := by
-  unfold stopAlloc
-  split
-  · split <;> rfl
-  · next h => simpa using h
-
-theorem stopVer_verifier (s : St) : (stopVer s).verifier = false := by
-  unfold stopVer
-  split
-  · rfl
-  · next h => simpa using h
-
-/-- The lifecycle fields after the running branch of `stop`. -/
-theorem stopRun_fields (s : St) (e : Bool) :
-    (stopRun s e).stopAnn = true ∧ (stopRun s e).allocator = false ∧ (stopRun s e).verifier = false ∧
-    (stopRun s e).loaded = false ∧ (stopRun s e).acceptor = false ∧ (stopRun s e).openFiles = [] ∧
-    (stopRun s e).peers = [] ∧ (stopRun s e).dls = [] ∧ (stopRun s e).idls = [] := by
-  refine ⟨rfl, ?_, ?_, ?_, ?_, ?_, ?_, ?_, ?_⟩
-  · simp [stopRun, stopAlloc_allocator]
-  · simp [stopRun, stopVer_verifier]
-  · simp [stopRun, St.closeData]
-  · simp [stopRun, stopA]
-  · simp [stopRun, St.closeData]
-  · simp [stopRun, stopPeers_peers]
-  · simp [stopRun, stopClear]
-  · simp [stopRun, stopClear]
 
 theorem stop_life (s : St) (e : Bool) (h : Life s) : Life (s.stop e) := by
   rw [stop_eq]
@@ -499,13 +437,20 @@ theorem handleAllocationDone_life (m : M) (ex mi : Bool) (h : Life m.1) (ha : m.
 
 theorem allocatorRun_life (m : M) (h : Life m.1) (ha : m.1.allocator = true) : Life (allocatorRun m).1 := by
   have hr := h.running_of_alloc ha
-  unfold allocatorRun
-  dsimp only
+  rw [allocatorRun_eq]
   split
-  · simp only [onSt_fst]
-    exact stop_life' _ _ hr h.leaked (fun hi => ⟨(h.ni hi).2.2.2.1, (h.ni hi).2.2.2.2⟩)
+  · unfold allocFail
+    simp only [onSt_fst]
+    refine stop_life' _ _ (hr.congr (by simp) (by simp)) (by simpa using h.leaked) (fun hi => ?_)
+    have hi' : m.1.info = false := by simpa using hi
+    refine ⟨by simpa using (h.ni hi').2.2.2.1, ?_⟩
+    unfold hadForget
+    simp only [onSt_fst]
+    split
+    · rfl
+    · simpa using (h.ni hi').2.2.2.2
   · apply handleAllocationDone_life
-    · simp only [onSt_fst]
+    · simp only [allocOkOpen, allocData, onSt_fst]
       refine h.set_files rfl rfl rfl rfl rfl rfl rfl rfl rfl rfl rfl rfl rfl rfl rfl ?_
       intro f hf hp
       simp only [List.getD_eq_getElem?_getD] at hp
@@ -513,7 +458,7 @@ theorem allocatorRun_life (m : M) (h : Life m.1) (ha : m.1.allocator = true) : L
     · simpa using ha
     · -- every non-padding file has just been opened
       intro f hf hp
-      simp only [onSt_fst, List.getD_eq_getElem?_getD] at hf hp ⊢
+      simp only [allocOkOpen, allocData, onSt_fst, List.getD_eq_getElem?_getD] at hf hp ⊢
       simp [hf, hp]
 
 end Rain.Loop
